@@ -1,0 +1,21 @@
+//go:build verif
+
+package blockchain
+
+// Contracts for gocv (contract-based deductive verification, /verif).
+
+//@ opaque type github.com/NethermindEth/juno/core/felt.Felt
+//@ opaque type github.com/NethermindEth/juno/core/felt.Address
+//@ opaque type github.com/NethermindEth/juno/core/felt.Hash
+
+// An event's keys match the filter iff the event has at least as many keys as the
+// filter has positions and, at every filter position, the position is a wildcard
+// (empty set) or contains the event's key at that position.
+//@ func (*EventMatcher).MatchesEventKeys
+//@   props C09
+//@   arith int
+//@   requires e != nil
+//@   loop rangeindex: invariant bounds: -1 <= rangeindex && rangeindex < len(eventKeys) && rangeindex < len(e.keysMap)
+//@   loop rangeindex: invariant sofar: forall j int :: 0 <= j && j <= rangeindex ==> (len(e.keysMap[j]) == 0 || in(e.keysMap[j], eventKeys[j]))
+//@   loop rangeindex: decreases len(eventKeys) - rangeindex
+//@   ensures exact: result <==> (len(eventKeys) >= len(e.keysMap) && (forall j int :: 0 <= j && j < len(e.keysMap) ==> (len(e.keysMap[j]) == 0 || in(e.keysMap[j], eventKeys[j]))))
